@@ -408,6 +408,11 @@ func (s *Sim) Submit(client string, req *t_api.Request) *OpRec {
 	s.opById[id] = o
 	o.CallEv = s.nextEv()
 	s.logf("CALL %s %s %s", id, client, req)
+	if req.Kind == t_api.CreateSchedule && req.CreateSchedule.IdempotencyKey != nil && s.snap != nil {
+		if row := s.snap.S[req.CreateSchedule.Id]; row != nil && (row.Ik == nil || *row.Ik != string(*req.CreateSchedule.IdempotencyKey)) {
+			o.Meta["otherKey"] = true
+		}
+	}
 	if req.Kind == t_api.CompleteTask && s.snap != nil {
 		if row := s.snap.T[req.CompleteTask.Id]; row != nil && (row.State == 8 || row.State == 16) {
 			o.Meta["finishedAtCall"] = row.State // finished is absorbing: this request can only be acknowledged
